@@ -293,13 +293,19 @@ def gen_safe_name(rng, tier):
         for combo in itertools.product(TOKENS, repeat=4):
             yield {"case": "snakeCase", "prefix": "value", "s": "".join(combo)}
     # user prefixes, including ones that make the real function recurse forever
+    # (a diverging call costs a thousand frames: the quick tier keeps those few)
+    bad = [p for p in PREFIXES[4:] if not prefix_ok(p)]
+    good = [p for p in PREFIXES[4:] if prefix_ok(p)]
     for s in HAND_NAMES[:120]:
-        for p in PREFIXES[4:]:
+        for p in good:
+            yield {"case": rng.choice(CASES), "prefix": p, "s": s}
+    for s in (HAND_NAMES[:120] if tier != "quick" else rng.sample(HAND_NAMES[:120], 12)):
+        for p in bad:
             yield {"case": rng.choice(CASES), "prefix": p, "s": s}
     alpha = TOKENS + MORE
     for _ in range(1500 if tier == "quick" else 40000):
         s = "".join(rng.choice(alpha) for _ in range(rng.choice([1, 2, 3, 4, 6])))
-        yield {"case": rng.choice(CASES), "prefix": rng.choice(PREFIXES), "s": s}
+        yield {"case": rng.choice(CASES), "prefix": rng.choice(PREFIXES[:4] + good if tier == "quick" and rng.random() < 0.9 else PREFIXES), "s": s}
 
 
 def gen_filter(rng, tier):
@@ -339,8 +345,10 @@ def gen_identifier(rng, tier):
 
 def gen_word(rng, tier):
     yield {"s": "".join(chr(i) for i in range(0, 256))}
+    blocks = [(0x80, 0x800), (0x800, 0x3000), (0x3000, 0xD800), (0xE000, 0x10000), (0x10000, 0x20000), (0x20000, 0x110000)]
     for _ in range(200 if tier == "quick" else 4000):
-        yield {"s": "".join(chr(rng.choice([rng.randrange(0x80, 0xD800), rng.randrange(0xE000, 0x110000)])) for _ in range(40))}
+        lo, hi = rng.choice(blocks)
+        yield {"s": "".join(chr(rng.randrange(lo, hi)) for _ in range(40))}
 
 
 ATTR_NAMES = [
@@ -537,6 +545,509 @@ def impl_e2e_fields(a):
     are read back from the module file that was written."""
     return _guard(lambda: generated_members(adapt_pipeline("names.e2e_fields", a)))
 
+# ----------------------------------------------------------------- DetectCircularReferences
+
+
+def _walk_types(node):
+    """the AttrType specs of a class spec in `Class.types()` order: extensions, attr types, choice
+    types, then the inner classes"""
+    for t in node["exts"]:
+        yield t
+    for at in node["attrs"]:
+        yield from at["types"]
+        for ch in at["choices"]:
+            yield from ch
+    for inner in node["inner"]:
+        yield from _walk_types(inner)
+
+
+def _walk_nodes(nodes):
+    for n in nodes:
+        yield n
+        yield from _walk_nodes(n["inner"])
+
+
+def circ_flatten(a):
+    """What the handler is documented to look at, as flat tables for the model: every AttrType
+    object once (shared by the cached lists), the cached reference_types lists, and per processed
+    class its own attr / choice types in processing order."""
+    edge_id = {}
+    edges = []
+    for root in a["classes"]:
+        for t in _walk_types(root):
+            edge_id[id(t)] = len(edges)
+            edges.append({"tgt": t["ref"], "fwd": t["fwd"], "nat": t["nat"], "circ": t["circ"]})
+    ref_types = []
+    own = {}
+    for n in _walk_nodes(a["classes"]):
+        ref_types.append({"ref": n["id"], "ids": [edge_id[id(t)] for t in _walk_types(n) if t["ref"]]})
+        ids = []
+        for at in n["attrs"]:
+            ids += [edge_id[id(t)] for t in at["types"]]
+            for ch in at["choices"]:
+                ids += [edge_id[id(t)] for t in ch]
+        own[n["id"]] = ids
+    return {"edges": edges, "ref_types": ref_types, "proc": [{"ref": k, "own": own[k]} for k in a.get("order", [])]}
+
+
+def with_flat(a):
+    """the case as the real objects are built from it (classes, order) plus the flat tables the
+    Lean model reads (edges, ref_types, proc)"""
+    return {**a, **circ_flatten(a)}
+
+
+def circ_build(a):
+    """real Class / Attr / AttrType / Extension objects for the class forest of the case"""
+    from xsdata.codegen.models import AttrType, Extension, Restrictions
+
+    objs = {}
+    types = []  # (spec, AttrType) in edge order
+
+    def mk_type(t):
+        tp = AttrType(qname=f"c{t['ref']}" if t["ref"] else "{http://www.w3.org/2001/XMLSchema}string",
+                      native=t["nat"], forward=t["fwd"], circular=t["circ"])
+        types.append((t, tp))
+        return tp
+
+    def mk_class(n, parent=None):
+        c = Class(qname=f"c{n['id']}", tag=Tag.COMPLEX_TYPE, location="l")
+        c.parent = parent
+        objs[n["id"]] = c
+        c.extensions = [Extension(tag=Tag.EXTENSION, type=mk_type(t), restrictions=Restrictions()) for t in n["exts"]]
+        for k, at in enumerate(n["attrs"]):
+            attr = Attr(tag=Tag.ELEMENT, name=f"a{k}", types=[mk_type(t) for t in at["types"]])
+            attr.choices = [Attr(tag=Tag.ELEMENT, name=f"a{k}_{j}", types=[mk_type(t) for t in ch]) for j, ch in enumerate(at["choices"])]
+            c.attrs.append(attr)
+        c.inner = [mk_class(i, c) for i in n["inner"]]
+        return c
+
+    roots = [mk_class(n) for n in a["classes"]]
+    for t, tp in types:
+        # a reference to a class that does not exist keeps a number no class has
+        tp.reference = id(objs[t["ref"]]) if t["ref"] in objs else (0 if not t["ref"] else t["ref"])
+    return roots, objs, types
+
+
+def run_detect_circular(a):
+    from xsdata.codegen.handlers import DetectCircularReferences
+
+    roots, objs, types = circ_build(a)
+    container = ClassContainer(GeneratorConfig())
+    container.extend(roots)
+    h = DetectCircularReferences(container)
+    for k in a["order"]:
+        h.process(objs[k])
+    return [tp.circular for _, tp in types], objs, types
+
+
+def impl_detect_circular(a):
+    try:
+        return ok(run_detect_circular(a)[0])
+    except KeyError:
+        return err("KeyError")
+    except Exception as e:  # noqa: BLE001
+        return err("LEAK:" + type(e).__name__)
+
+
+def impl_is_circular(a):
+    from xsdata.codegen.handlers import DetectCircularReferences
+
+    try:
+        roots, objs, types = circ_build(a)
+        container = ClassContainer(GeneratorConfig())
+        container.extend(roots)
+        h = DetectCircularReferences(container)
+        h.build_reference_types()
+        ref = lambda k: id(objs[k]) if k in objs else k  # noqa: E731
+        return ok(h.is_circular(ref(a["start"]), ref(a["stop"])))
+    except KeyError:
+        return err("KeyError")
+    except Exception as e:  # noqa: BLE001
+        return err("LEAK:" + type(e).__name__)
+
+
+def _rand_forest(rng, n_classes, dangling=False, preflag=False):
+    ids = list(range(1, n_classes + 1))
+    nodes = {k: {"id": k, "exts": [], "attrs": [], "inner": []} for k in ids}
+    roots = []
+    parent = {}
+    for k in ids:
+        if k > 1 and rng.random() < 0.3:
+            p = rng.choice([x for x in ids if x < k])
+            nodes[p]["inner"].append(nodes[k])
+            parent[k] = p
+        else:
+            roots.append(nodes[k])
+    style = rng.choice(["sparse", "dense", "chain", "ring"])
+
+    def mk(ref, owner):
+        nat = ref == 0 or rng.random() < 0.03
+        fwd = ref != 0 and parent.get(ref) == owner
+        return {"ref": ref, "fwd": bool(fwd), "nat": bool(nat), "circ": bool(preflag and rng.random() < 0.15)}
+
+    def pick(owner):
+        r = rng.random()
+        if r < 0.15:
+            return 0
+        if dangling and r < 0.2:
+            return 90 + rng.randint(0, 3)
+        if style == "chain":
+            return min(n_classes, owner + 1)
+        if style == "ring":
+            return owner % n_classes + 1
+        return rng.choice(ids)
+
+    for k in ids:
+        n = nodes[k]
+        n_attrs = rng.randint(0, 1 if style == "sparse" else 3)
+        for _ in range(n_attrs):
+            at = {"types": [mk(pick(k), k) for _ in range(rng.randint(1, 2))], "choices": []}
+            if rng.random() < 0.2:
+                at["choices"] = [[mk(pick(k), k)] for _ in range(rng.randint(1, 2))]
+            n["attrs"].append(at)
+        if rng.random() < 0.25:
+            n["exts"].append(mk(pick(k), k))
+        for i in n["inner"]:
+            # the parent refers to its inner class with a forward type
+            n["attrs"].append({"types": [{"ref": i["id"], "fwd": True, "nat": False, "circ": False}], "choices": []})
+    return roots, ids
+
+
+def gen_detect_circular(rng, tier):
+    def t(ref, fwd=False, nat=False, circ=False):
+        return {"ref": ref, "fwd": fwd, "nat": nat, "circ": circ}
+
+    def c(k, types=(), exts=(), inner=()):
+        return {"id": k, "exts": list(exts), "attrs": [{"types": [x], "choices": []} for x in types], "inner": list(inner)}
+
+    hand = [
+        ([c(1, [t(1)])], [1]),                                   # self reference
+        ([c(1, [t(2)]), c(2, [t(1)])], [1, 2]),                  # 2-cycle: only the first processed is flagged
+        ([c(1, [t(2)]), c(2, [t(1)])], [2, 1]),
+        ([c(1, [t(2)]), c(2, [t(3)]), c(3, [t(1)])], [1, 2, 3]),
+        ([c(1, [t(2)]), c(2, exts=[t(1)])], [1, 2]),             # cycle closed by an extension
+        ([c(1, [t(2)]), c(2, exts=[t(1)])], [2, 1]),
+        ([c(1, [t(3, fwd=True)], inner=[c(3, [t(2)])]), c(2, [t(1)])], [1, 3, 2]),  # through an inner class
+        ([c(1, [t(3, fwd=True)], inner=[c(3, [t(2)])]), c(2, [t(1)])], [2, 1, 3]),
+        ([c(1, [t(2), t(0, nat=True)]), c(2, [])], [1, 2]),
+        ([c(1, [t(9)])], [1]),                                   # dangling reference: KeyError
+        ([c(1, [t(2, circ=True)]), c(2, [t(1)])], [1, 2]),       # already flagged
+        ([], []),
+    ]
+    for classes, order in hand:
+        yield with_flat({"classes": classes, "order": order})
+    for _ in range(400 if tier == "quick" else 8000):
+        n = rng.choice([1, 2, 3, 3, 4, 5, 6, 8])
+        roots, ids = _rand_forest(rng, n, dangling=rng.random() < 0.08, preflag=rng.random() < 0.15)
+        order = ids[:]
+        r = rng.random()
+        if r < 0.5:
+            rng.shuffle(order)
+        elif r < 0.6:
+            order = order[: rng.randint(0, len(order))]
+        elif r < 0.7:
+            order = order + [rng.choice(order) for _ in range(rng.randint(1, 3))]  # a class processed again
+        yield with_flat({"classes": roots, "order": order})
+
+
+def gen_is_circular(rng, tier):
+    for _ in range(300 if tier == "quick" else 6000):
+        n = rng.choice([1, 2, 3, 4, 5, 6])
+        roots, ids = _rand_forest(rng, n, dangling=rng.random() < 0.04, preflag=rng.random() < 0.3)
+        yield with_flat({"classes": roots, "start": rng.choice(ids * 4 + [95]), "stop": rng.choice(ids)})
+
+
+def classify_circular(a, out):
+    if "err" in out:
+        return "err:" + out["err"]
+    n = sum(1 for _ in _walk_nodes(a["classes"]))
+    inner = sum(1 for x in _walk_nodes(a["classes"]) if x["inner"])
+    flagged = sum(out["ok"]) if isinstance(out["ok"], list) else int(out["ok"])
+    return f"classes={min(n, 5)}{'+' if n > 5 else ''} nested={'y' if inner else 'n'} flagged={min(flagged, 3)}{'+' if flagged > 3 else ''}"
+
+
+def oracle_circular(a):
+    """After DetectCircularReferences no remaining (unflagged, non-forward, non-native) attr or choice
+    type of a processed class leads back to that class through unflagged types; and a type is only
+    flagged when it lies on a cycle of the original graph."""
+    try:
+        flags, objs, types = run_detect_circular(a)
+    except KeyError:
+        known = {n["id"] for n in _walk_nodes(a["classes"])}
+        if any(t["ref"] and t["ref"] not in known for r in a["classes"] for t in _walk_types(r)):
+            return None  # a dangling reference is reported by ValidateReferences, not here
+        return "DetectCircularReferences raised KeyError without a dangling reference"
+    except Exception as e:  # noqa: BLE001
+        return f"DetectCircularReferences raised {type(e).__name__}: {e}"
+    # a second pass over the same classes with the same handler (its cache is built once) finds nothing new
+    try:
+        twice = run_detect_circular({**a, "order": list(a["order"]) + list(a["order"])})[0]
+    except Exception as e:  # noqa: BLE001
+        return f"processing the classes a second time raised {type(e).__name__}"
+    if twice != flags:
+        k = [i for i, (x, y) in enumerate(zip(flags, twice)) if x != y][0]
+        return f"a second pass over the same classes changes the flag of type object #{k}: the result depends on earlier calls"
+    nodes = {n["id"]: n for n in _walk_nodes(a["classes"])}
+    flag_of = {id(t): f for (t, _), f in zip(types, flags)}
+
+    def succ(k, use_final):
+        out = set()
+        for t in _walk_types(nodes[k]):
+            if t["ref"] and t["ref"] in nodes and not (flag_of[id(t)] if use_final else t["circ"]):
+                out.add(t["ref"])
+        return out
+
+    def reach(start, use_final):
+        seen, todo = set(), [start]
+        while todo:
+            x = todo.pop()
+            if x in seen or x not in nodes:
+                continue
+            seen.add(x)
+            todo.extend(succ(x, use_final))
+        return seen
+
+    for k in a["order"]:
+        n = nodes[k]
+        own = [t for at in n["attrs"] for t in at["types"] + [x for ch in at["choices"] for x in ch]]
+        for t in own:
+            if t["fwd"] or t["nat"] or not t["ref"] or t["ref"] not in nodes:
+                continue
+            if not flag_of[id(t)] and k in reach(t["ref"], True):
+                return f"class c{k} keeps a plain reference to c{t['ref']} although c{t['ref']} leads back to c{k}: the module would import itself / use a class before its definition"
+            if flag_of[id(t)] and not t["circ"] and k not in reach(t["ref"], False):
+                return f"class c{k}: the reference to c{t['ref']} is flagged circular although c{t['ref']} never leads back to c{k}"
+    return None
+
+
+# ----------------------------------------------------------------- inner classes / reference classes
+
+
+def impl_rename_inners(a):
+    from xsdata.codegen.handlers import VacuumInnerClasses
+
+    def run():
+        ns = a.get("ns")
+        q = lambda n: ("{%s}%s" % (ns, n)) if ns else n  # noqa: E731
+        target = Class(qname=q("outer"), tag=Tag.COMPLEX_TYPE, location="l")
+        inners = [Class(qname=q(n), tag=Tag.COMPLEX_TYPE, location="l") for n in a["names"]]
+        for i in inners:
+            i.parent = target
+        target.inner = list(inners)
+        VacuumInnerClasses.rename_duplicate_inners(target)
+        return [i.name for i in inners]
+
+    return _guard(run)
+
+
+INNER_NAMES = ["a", "A", "a_", "x-1", "x1", "x_1", "X1", "a⁰", "a名", "b", "x1_1", "x11", "x-1_1", "é", "_", "value", "Value"]
+
+
+def gen_rename_inners(rng, tier):
+    for h in (["x-1", "x1"], ["a⁰", "a名", "a"], ["a", "b"], ["x1", "x-1", "x1_1", "X1"], [], ["é", "_"]):
+        yield {"names": h, "ns": None}
+    for combo in itertools.product(["a", "A", "a_1", "a1", "b"], repeat=3):
+        yield {"names": list(combo), "ns": "urn:x"}
+    for _ in range(300 if tier == "quick" else 6000):
+        pool = rng.sample(INNER_NAMES, rng.randint(2, 6))
+        yield {"names": [rng.choice(pool) for _ in range(rng.randint(1, 6))], "ns": rng.choice([None, "urn:x"])}
+
+
+def impl_ref_class_qname(a):
+    from xsdata.codegen.models import Restrictions
+
+    def run():
+        config = GeneratorConfig()
+        config.output.unnest_classes = not a["inner"]
+        container = ClassContainer(config)
+        source = Class(qname=a["source"], tag=Tag.COMPLEX_TYPE, location="l")
+        source.inner = [Class(qname=n, tag=Tag.COMPLEX_TYPE, location="l") for n in a["inner_names"]]
+        choice = Attr(tag=Tag.ELEMENT, name=a["name"], namespace=a["choice_ns"], restrictions=Restrictions())
+        return DisambiguateChoices(container).create_ref_class(source, choice, inner=a["inner"]).qname
+
+    return _guard(run)
+
+
+def gen_ref_class_qname(rng, tier):
+    srcs = ["t", "{urn:x}t", "{http://a/b}T", "{urn:x}a_b"]
+    names = ["a", "A", "a_1", "x-1", "a名"]
+    for src in srcs:
+        for n in names:
+            for cns in (None, "", "urn:x", "urn:other"):
+                for inner in (False, True):
+                    yield {"source": src, "name": n, "choice_ns": cns, "inner": inner,
+                           "inner_names": rng.sample(["a", "A_1", "a1", "b", "x1", "a_2"], rng.randint(0, 4)) if inner else []}
+
+
+def _idx_suffix(name, out):
+    if "err" in out:
+        return "err:" + out["err"]
+    r = out["ok"]
+    if r == name:
+        return "unchanged"
+    m = re.search(r"_(\d+)$", r)
+    k = int(m.group(1)) if m else 0
+    return "index=1" if k == 1 else ("index=2..4" if k <= 4 else "index>=5")
+
+
+def classify_words(a, out):
+    if "err" in out:
+        return "err"
+    n = len(out["ok"])
+    s = a["s"]
+    feat = ("nonascii" if any(ord(c) > 127 for c in s) else "ascii") + ("+caps-run" if re.search(r"[A-Z]{2}", s) else "")
+    return f"words={min(n, 3)}{'+' if n > 3 else ''} {feat}"
+
+
+def classify_clean_uri(a, out):
+    s = a["s"]
+    head = "##" if s.startswith("##") else ("urn" if s.startswith("urn:") else ("http(s)" if re.match(r"https?:", s) else ("other-scheme" if ":" in s else "plain")))
+    dropped = any(p in ("www", "xsd", "wsdl") for p in s.split("."))
+    return head + ("+ignored-part" if dropped else "")
+
+
+def classify_rename_classes(a, out):
+    if "err" in out:
+        return "err:" + out["err"]
+    cs = a["classes"]
+    news = out["ok"]
+    kinds = set()
+    for c, q in zip(cs, news):
+        if q == c["qname"]:
+            continue
+        if q == c["qname"] + "_abstract":
+            kinds.add("abstract-suffix")
+        elif c["abstract"] and re.search(r"_\d+$", q):
+            kinds.add("numeric(abstract class)")
+        else:
+            kinds.add("numeric")
+    unique = a["style"] in ("single-package", "clusters") or len({c["location"] for c in cs}) == 1
+    return ("by-name " if unique else "by-qname ") + ("+".join(sorted(kinds)) or "unchanged")
+
+
+def classify_e2e(a, o):
+    opts = a.get("opts", {})
+    feats = [a["kind"], opts.get("style", "filenames")]
+    for k in ("compound", "unnest", "relative_imports", "frozen", "slots"):
+        if opts.get(k):
+            feats.append(k)
+    if "err" in o:
+        return a["kind"] + ":" + (covered_pipeline(a, o["err"]) or "FAIL")
+    return " ".join(feats[:2]) + (" +" + "+".join(feats[2:4]) if feats[2:] else "")
+
+
+def impl_resolve_conflict(a):
+    from xsdata.codegen.handlers import ValidateAttributesOverrides
+    from xsdata.utils import collections as xcoll
+
+    def run():
+        target = Class(qname="t", tag=Tag.COMPLEX_TYPE, location="l", attrs=mk_attrs(a["target"]))
+        base = mk_attrs(a["base"])
+        base_map = xcoll.group_by(base, key=lambda x: x.slug)
+        ValidateAttributesOverrides.validate_attrs(target, base_map)
+        return [[x.name for x in target.attrs], [x.name for x in base]]
+
+    return _guard(run)
+
+
+def gen_resolve_conflict(rng, tier):
+    """one child attr that clashes with a parent attr of the other xml kind (element vs attribute: not an
+    override), among other attrs of the class and of the parents that clash with nothing"""
+    def at(tag, name, ns=None):
+        return {"tag": tag, "name": name, "ns": ns}
+
+    yield {"target": [at("Element", "a")], "base": [at("Attribute", "a_Attribute"), at("Attribute", "A")], "child": 0}
+    yield {"target": [at("Attribute", "a"), at("Element", "a_Attribute")], "base": [at("Element", "A")], "child": 0}
+    yield {"target": [at("Element", "x"), at("Element", "a", "urn:x")], "base": [at("Attribute", "A")], "child": 1}
+    stems = ["a", "b", "x1", "value"]
+    for _ in range(300 if tier == "quick" else 6000):
+        stem = rng.choice(stems)
+        ctag, ptag = rng.choice([("Element", "Attribute"), ("Attribute", "Element")])
+        child = at(ctag, rng.choice([stem, stem.upper(), stem + "_"]), rng.choice([None, None, "urn:x"]))
+        parent = at(ptag, rng.choice([stem, stem.capitalize(), "_" + stem]), rng.choice([None, None, "urn:y"]))
+        # bystanders: names that look like what the rename produces, with slugs that clash with no other attr
+        taken = {own_slug(child["name"])}
+        def extra(pool, n):
+            out = []
+            for nm in rng.sample(pool, n):
+                if own_slug(nm) not in taken:
+                    taken.add(own_slug(nm))
+                    out.append(at(rng.choice(["Element", "Attribute"]), nm))
+            return out
+        pool = [f"{stem}_Attribute", f"{stem}_Element", f"{stem}_attribute_1", f"{stem}Attribute", f"{stem}_Element_1",
+                f"x_{stem}", f"y_{stem}", f"{stem}_Attribute_2", "zz", "other"]
+        t_others = extra(pool, rng.randint(0, 3))
+        b_others = extra(pool, rng.randint(0, 3))
+        target = t_others + [child]
+        rng.shuffle(target)
+        base = b_others + [parent]
+        rng.shuffle(base)
+        yield {"target": target, "base": base, "child": target.index(child)}
+
+
+def oracle_inners(a):
+    """after the real VacuumInnerClasses.process the inner classes of one class have pairwise different
+    class names (under the default naming convention)"""
+    from xsdata.codegen.handlers import VacuumInnerClasses
+
+    names = list(dict.fromkeys(a["names"]))  # one inner class per qname
+    ns = a.get("ns")
+    q = lambda n: ("{%s}%s" % (ns, n)) if ns else n  # noqa: E731
+    target = Class(qname=q("outer"), tag=Tag.COMPLEX_TYPE, location="l")
+    inners = []
+    for n in names:
+        c = Class(qname=q(n), tag=Tag.COMPLEX_TYPE, location="l")
+        c.attrs = [Attr(tag=Tag.ELEMENT, name="x")]  # a class without attrs is vacuumed
+        c.parent = target
+        inners.append(c)
+    target.inner = list(inners)
+    try:
+        VacuumInnerClasses().process(target)
+    except Exception as e:  # noqa: BLE001
+        return f"VacuumInnerClasses raised {type(e).__name__}"
+    finals = [F().class_name(i.name) for i in target.inner]
+    for i, n in enumerate(finals):
+        if n in finals[:i]:
+            j = finals.index(n)
+            return f"inner classes {names[j]!r} and {names[i]!r} of one class are both rendered as class {n!r}"
+    return None
+
+
+def covered_inners(a, msg):
+    m = re.search(r"inner classes ('(?:[^'\\]|\\.)*') and ('(?:[^'\\]|\\.)*') of one class are both rendered as class ('(?:[^'\\]|\\.)*')", msg)
+    if not m:
+        return None
+    n1, n2, final = (ast.literal_eval(x) for x in m.groups())
+    # different slugs that the documented safe_name maps to one name: the open finding
+    if own_slug(n1) != own_slug(n2) and ref_safe_name(n1, "type", "pascalCase") == ref_safe_name(n2, "type", "pascalCase") == final:
+        return "C07-safe-prefix-collision"
+    return None
+
+
+def oracle_conflict(a):
+    """after the real ValidateAttributesOverrides.validate_attrs no two attrs of the class and its
+    parents share a field name (inputs: one clash between a child attr and a parent attr of the other kind)"""
+    io = impl_resolve_conflict(a)
+    if "err" in io:
+        return f"validate_attrs raised {io['err']}"
+    names = io["ok"][0] + io["ok"][1]
+    finals = [F().field_name(n, "c") for n in names]
+    for i, n in enumerate(finals):
+        if n in finals[:i]:
+            return f"attrs {names[finals.index(n)]!r} and {names[i]!r} (class and parents of {[x['name'] for x in a['target']]!r} / {[x['name'] for x in a['base']]!r}) both become field {n!r}"
+    return None
+
+
+def covered_conflict(a, msg):
+    m = re.search(r"attrs ('(?:[^'\\]|\\.)*') and ('(?:[^'\\]|\\.)*') \(class", msg)
+    if not m:
+        return None
+    n1, n2 = (ast.literal_eval(x) for x in m.groups())
+    if own_slug(n1) != own_slug(n2) and ref_safe_name(n1, "value", "snakeCase") == ref_safe_name(n2, "value", "snakeCase"):
+        return "C07-safe-prefix-collision"
+    return None
+
+
 
 def classify_safe(a, out):
     if "err" in out:
@@ -556,12 +1067,13 @@ def classify_safe(a, out):
 
 CORRS = [
     Corr("names.split_words", gen_split_words, impl_split_words, nontrivial=lambda a, o: len(a["s"]) > 1,
-         describe="text.split_words"),
-    Corr("names.alnum", gen_alnum, impl_alnum, nontrivial=lambda a, o: len(a["s"]) > 0),
+         describe="text.split_words", classify=classify_words),
+    Corr("names.alnum", gen_alnum, impl_alnum, nontrivial=lambda a, o: len(a["s"]) > 0,
+         classify=lambda a, o: "empty-slug" if o.get("ok") == "" else ("digit-first" if o.get("ok", "x")[0].isdigit() else "letter-first")),
     Corr("names.case", gen_case, impl_case, nontrivial=lambda a, o: len(a["s"]) > 1,
          describe="NameCase(value)(string) for the eight cases",
          classify=lambda a, o: a["case"] + (":err" if "err" in o else "")),
-    Corr("names.kebab", gen_kebab, impl_kebab),
+    Corr("names.kebab", gen_kebab, impl_kebab, classify=lambda a, o: "with-dash" if "-" in o.get("ok", "") else "one-word-or-empty"),
     Corr("names.safe_name", gen_safe_name, impl_safe_name, nontrivial=lambda a, o: len(a["s"]) > 0,
          describe="Filters.safe_name(name, prefix, case)", classify=classify_safe),
     Corr("names.filter", gen_filter, impl_filter, nontrivial=lambda a, o: len(a["s"]) > 0,
@@ -570,22 +1082,41 @@ CORRS = [
     Corr("names.filters_init", gen_filters_init, impl_filters_init,
          describe="Filters(config): safe prefixes accepted / rejected with CodegenError",
          classify=lambda a, o: "rejected" if "err" in o else "accepted"),
-    Corr("names.clean_uri", gen_clean_uri, impl_clean_uri),
+    Corr("names.clean_uri", gen_clean_uri, impl_clean_uri, classify=classify_clean_uri),
     Corr("names.is_identifier", gen_identifier, impl_is_identifier, nontrivial=lambda a, o: len(a["s"]) > 0,
          describe="spec: str.isidentifier", classify=lambda a, o: str(o.get("ok"))),
     Corr("names.is_keyword", gen_identifier, impl_is_keyword, classify=lambda a, o: str(o.get("ok"))),
-    Corr("names.is_word", gen_word, impl_is_word, describe=r"re \w per character"),
+    Corr("names.is_word", gen_word, impl_is_word, describe=r"re \w per character",
+         classify=lambda a, o: "latin-1 block" if max(map(ord, a["s"])) < 256 else ("BMP" if max(map(ord, a["s"])) < 0x10000 else "astral")),
     Corr("names.rename_attrs", gen_rename_attrs, impl_rename_attrs, nontrivial=lambda a, o: len(a["attrs"]) > 1,
          describe="ClassUtils.rename_duplicate_attributes", classify=classify_rename),
-    Corr("names.unique_name", gen_unique_name, impl_unique_name),
-    Corr("names.next_qname", gen_next_qname, impl_next_qname),
-    Corr("names.next_available_name", gen_next_available_name, impl_next_available_name),
+    Corr("names.unique_name", gen_unique_name, impl_unique_name, classify=lambda a, o: _idx_suffix(a["name"], o)),
+    Corr("names.next_qname", gen_next_qname, impl_next_qname,
+         classify=lambda a, o: ("by-name " if a["use_names"] else "by-qname ") + ("ns " if a["ns"] else "no-ns ") + _idx_suffix(a["name"], o)),
+    Corr("names.next_available_name", gen_next_available_name, impl_next_available_name,
+         classify=lambda a, o: _idx_suffix(a["name"], o)),
     Corr("names.e2e_fields", gen_e2e_fields, impl_e2e_fields, nontrivial=lambda a, o: len(a["attrs"]) > 1,
          describe="whole real pipeline on one complexType / enumeration vs model(rename_duplicate_attributes ∘ field/constant_name)",
          classify=lambda a, o: ("enum" if a["attrs"][0]["tag"] == "Enumeration" else "complexType") + (":err" if "err" in o else "")),
+    Corr("names.detect_circular", gen_detect_circular, impl_detect_circular,
+         describe="DetectCircularReferences.process over a class forest (shared AttrType objects, cached reference_types, any order)",
+         classify=classify_circular, nontrivial=lambda a, o: len(a["order"]) > 1),
+    Corr("names.is_circular", gen_is_circular, impl_is_circular,
+         describe="DetectCircularReferences.is_circular(start, stop)", classify=classify_circular),
+    Corr("names.resolve_conflict", gen_resolve_conflict, impl_resolve_conflict,
+         describe="ValidateAttributesOverrides.validate_attrs: a child attr clashing with a parent attr of the other xml kind",
+         classify=lambda a, o: "err" if "err" in o else (
+             ("child" if o["ok"][0] != [x["name"] for x in a["target"]] else "parent") + " renamed" +
+             (" +index" if any(re.search(r"_\d+$", n) and n not in [x["name"] for x in a["target"] + a["base"]] for n in o["ok"][0] + o["ok"][1]) else ""))),
+    Corr("names.rename_inners", gen_rename_inners, impl_rename_inners, nontrivial=lambda a, o: len(a["names"]) > 1,
+         describe="VacuumInnerClasses.rename_duplicate_inners: names of the inner classes of one class",
+         classify=lambda a, o: "err" if "err" in o else ("renamed" if o["ok"] != a["names"] else "unchanged")),
+    Corr("names.ref_class_qname", gen_ref_class_qname, impl_ref_class_qname,
+         describe="DisambiguateChoices.create_ref_class: qname of the class created for an ambiguous choice",
+         classify=lambda a, o: ("inner" if a["inner"] else "root") + (":err" if "err" in o else "")),
     Corr("names.rename_classes", gen_rename_classes, impl_rename_classes, nontrivial=lambda a, o: len(a["classes"]) > 1,
          describe="RenameDuplicateClasses.run (renames only)",
-         classify=lambda a, o: "renamed" if o.get("ok") != [c["qname"] for c in a["classes"]] else "unchanged"),
+         classify=classify_rename_classes),
 ]
 
 # ----------------------------------------------------------------- oracles
@@ -956,12 +1487,32 @@ def build_xsd(spec):
 
     out = [f'<xs:schema xmlns:xs="{XS}"' + (f' targetNamespace="{esc(spec["tns"])}" xmlns="{esc(spec["tns"])}"' if spec.get("tns") else "") + ">"]
     for t in spec["types"]:
-        out.append(f'<xs:complexType name="{esc(t["name"])}"' + (' abstract="true"' if t.get("abstract") else "") + "><xs:sequence>")
+        # elements: a name (xs:string), [name, type] (a complexType of the schema, optional) or
+        # [name, None, [inner elements]] (anonymous complexType = inner class);
+        # "model": sequence | choice (repeating choice: compound field material); "base": extension
+        out.append(f'<xs:complexType name="{esc(t["name"])}"' + (' abstract="true"' if t.get("abstract") else "") + ">")
+        if t.get("base"):
+            out.append(f'<xs:complexContent><xs:extension base="{esc(t["base"])}">')
+        model = t.get("model", "sequence")
+        out.append('<xs:choice maxOccurs="unbounded">' if model == "choice" else "<xs:sequence>")
         for e in t["elements"]:
-            out.append(f'<xs:element name="{esc(e)}" type="xs:string"/>')
-        out.append("</xs:sequence>")
+            if isinstance(e, str):
+                out.append(f'<xs:element name="{esc(e)}" type="xs:string"/>')
+            elif len(e) == 2:
+                out.append(f'<xs:element name="{esc(e[0])}" type="{esc(e[1])}" minOccurs="0"/>')
+            else:
+                out.append(f'<xs:element name="{esc(e[0])}" minOccurs="0"><xs:complexType><xs:sequence>')
+                for ie in e[2]:
+                    if isinstance(ie, str):
+                        out.append(f'<xs:element name="{esc(ie)}" type="xs:string"/>')
+                    else:
+                        out.append(f'<xs:element name="{esc(ie[0])}" type="{esc(ie[1])}" minOccurs="0"/>')
+                out.append("</xs:sequence></xs:complexType></xs:element>")
+        out.append("</xs:choice>" if model == "choice" else "</xs:sequence>")
         for at in t["attributes"]:
             out.append(f'<xs:attribute name="{esc(at)}" type="xs:string"/>')
+        if t.get("base"):
+            out.append("</xs:extension></xs:complexContent>")
         out.append("</xs:complexType>")
     for el in spec["elements"]:
         out.append(f'<xs:element name="{esc(el["name"])}" type="{esc(el["type"])}"/>')
@@ -1169,6 +1720,39 @@ def bind_and_instantiate(g):
     return None
 
 
+def masked_import_error(g, opts, kind):
+    """`ResourceTransformer.process` reports *every* ImportError of `validate_imports` as
+    CodegenError("Circular Dependencies Found"). That is the generator's own error type for the two
+    situations it cannot lay out — a module file next to a package directory of the same name, and a
+    genuine import cycle between modules of a style that does not cluster cycles — but it must not
+    hide a package that simply does not import."""
+    cause = g.error.__cause__ or g.error.__context__
+    if not isinstance(cause, ImportError):
+        # CodegenError is the generator's answer to input it cannot handle; the consistency checks of
+        # ValidateReferences / DependenciesResolver / the container failing on a *valid* source is an
+        # internal error in disguise
+        text_ = str(g.error)
+        legit = ("Json keys can not be empty", "Invalid safe prefix",
+                 "Found strongly connected types from different namespaces")
+        if any(text_.startswith(x) for x in legit):
+            return None
+        return f"generation gave up on a valid source with an internal consistency error: CodegenError({text_!r}, {getattr(g.error, 'meta', {})!r})"[:300]
+    style = opts.get("style", "filenames")
+    what = (f"the generated package does not import ({type(cause).__name__}: {str(cause).split(' (')[0][:110]}), "
+            f"reported as CodegenError('{g.error}') under structure style {style}")
+    if kind != "xsd2":
+        # one schema file / one sample, one namespace: every style has a layout for it (one module, or
+        # one module per cluster), so nothing can excuse an ImportError
+        return what
+    files = set(g.sources())
+    clash = any(f[:-3] + "/__init__.py" in files for f in files if f.endswith(".py") and not f.endswith("__init__.py"))
+    if clash:
+        return None  # layout limit: module `p/m.py` and package `p/m/` (two namespaces / a class and a namespace)
+    if "partially initialized module" in str(cause) and style in ("filenames", "namespaces"):
+        return None  # documented limit of these styles: modules that need each other
+    return what
+
+
 def oracle_pipeline(a):
     """End to end on the real generator: generation ends (only CodegenError may escape), every file
     written is valid Python without duplicate members / classes, every module imports, every class
@@ -1181,7 +1765,7 @@ def oracle_pipeline(a):
             return msg
         if g.error is not None:
             if isinstance(g.error, CodegenError):
-                return None  # the generator's own error type
+                return masked_import_error(g, opts, a["kind"])  # the generator's own error type, unless it hides a defect
             if isinstance(g.error, (KeyboardInterrupt, SystemExit)):
                 raise g.error
             return f"generation raised {type(g.error).__name__}: {str(g.error)[:80]} (not CodegenError)"
@@ -1212,7 +1796,13 @@ def _all_names(a):
         sp = a["spec"]
         out = [seg for seg in re.split(r"[:/.]", sp.get("tns") or "") if seg]
         for t in sp["types"]:
-            out += [t["name"], *t["elements"], *t["attributes"]]
+            out += [t["name"], *t["attributes"]]
+            for e in t["elements"]:
+                if isinstance(e, str):
+                    out.append(e)
+                else:
+                    out.append(e[0])
+                    out += [ie if isinstance(ie, str) else ie[0] for ie in (e[2] if len(e) > 2 else [])]
         out += [e["name"] for e in sp["elements"]]
         for en in sp["enums"]:
             out += [en["name"], *en["values"]]
@@ -1266,6 +1856,16 @@ def covered_pipeline(a, msg):
                 if len(set(slugs)) == len(slugs):
                     return "C07-safe-prefix-collision"
         return None
+    m = re.search(r"duplicate inner class names (\[.*\])", msg)
+    if m:
+        inner = ast.literal_eval(m.group(1))
+        ccase = a.get("opts", {}).get("class_case", "pascalCase")
+        for dup in {x for x in inner if inner.count(x) > 1}:
+            cands = {n for n in names if ref_safe_name(n, "type", ccase) == dup}
+            # inner classes named after elements with different slugs that the documented safe_name maps to one name
+            if len({own_slug(n) for n in cands}) < 2:
+                return None
+        return "C07-safe-prefix-collision"
     m = re.search(r"classes ('(?:[^'\\]|\\.)*') and ('(?:[^'\\]|\\.)*') are both named ('(?:[^'\\]|\\.)*')", msg)
     if m:
         q1, q2, final = (ast.literal_eval(x) for x in m.groups())
@@ -1273,6 +1873,9 @@ def covered_pipeline(a, msg):
         # enumerations carry no Meta.name, so the source names are looked up in the input
         # (a class may first have received a numeric suffix from RenameDuplicateClasses)
         variants = [(n, n) for n in names] + [(f"{n}_{k}", n) for n in names for k in range(1, 10)]
+        if a.get("opts", {}).get("unnest"):
+            # an unnested inner class is called parent_inner (its Meta carries no name: it shows as the class name)
+            variants += [(f"{p}_{n}", final) for p in set(names) for n in set(names)]
         cands = {(v, base) for v, base in variants if ref_safe_name(v, "type", ccase) == final}
         for x, bx in cands:
             for y, by in cands:
@@ -1290,6 +1893,16 @@ def gen_pipeline(rng, tier):
         return {"name": name, "elements": list(elements), "attributes": list(attributes), "abstract": abstract}
 
     yield xsd([ty("t", ["a", "a_Attribute"], ["a"])])
+    # inner classes whose names collide after conversion (x-1 / x1, a⁰ / a名)
+    yield xsd([ty("t", [["x-1", None, ["p"]], ["x1", None, ["q"]], ["a⁰", None, ["p"]], ["a名", None, ["q"]]])], [{"name": "r", "type": "t"}])
+    # a child element clashing with a parent attribute while the parent already has `a_Attribute`
+    yield xsd([ty("p", ["a_Attribute"], ["A"]), {**ty("c", ["a"]), "base": "p"}], [{"name": "r", "type": "c"}])
+    # an ambiguous choice whose type is an anonymous (inner) class: element `str` next to an xs:string element
+    for st in ("filenames", "clusters"):
+        yield xsd([{**ty("t", [["str", None, ["x"]], "s"]), "model": "choice"}], [{"name": "r", "type": "t"}], compound=True, style=st)
+    # the class created for an ambiguous choice, unqualified local elements, a namespace style
+    yield xsd([{**ty("t", [["a", "u"], ["b", "u"]]), "model": "choice"}, ty("u", ["x"])], [{"name": "r", "type": "t"}],
+              tns="urn:x", compound=True, unnest=True, style="namespaces")
     yield xsd([ty("t", ["class", "class_value", "await"])])
     yield xsd([ty("t", ["a", "A", "a_"], ["a"])])
     yield xsd([ty("None"), ty("NoneType")], [{"name": "r", "type": "None"}])
@@ -1330,7 +1943,52 @@ def gen_pipeline(rng, tier):
     for h in hand:
         for o in matrix:
             yield {**h, "opts": dict(o)}
-    for _ in range(40 if tier == "quick" else 600):
+    # complex types that refer to each other: cycles, extension chains, inner classes, repeating
+    # choices with equal types (DetectCircularReferences, CreateCompoundFields, DisambiguateChoices,
+    # UnnestInnerClasses, VacuumInnerClasses, class order and imports inside / across modules)
+    tnames_pool = ["A", "b", "a_b", "class", "None", "T1", "x-y", "a", "Inner", "value", "é", "Node", "node", "a.b"]
+    for _ in range(90 if tier == "quick" else 2000):
+        names = rng.sample(tnames_pool, rng.randint(2, 5))
+        enames = rng.sample(XML_NAMES[:40], 6)
+        types = []
+        shape = rng.choice(["random", "ring", "tree", "self"])
+        for k, nm in enumerate(names):
+            els = []
+            for j in range(rng.randint(0, 3)):
+                r2 = rng.random()
+                if shape == "ring":
+                    tgt = names[(k + 1) % len(names)]
+                elif shape == "self":
+                    tgt = nm
+                elif shape == "tree":
+                    tgt = names[min(len(names) - 1, k + 1 + rng.randint(0, 1))]
+                else:
+                    tgt = rng.choice(names)
+                if r2 < 0.55:
+                    els.append([rng.choice(enames), tgt])
+                elif r2 < 0.7:
+                    els.append([rng.choice(enames), None, [[rng.choice(enames), rng.choice(names)], rng.choice(enames)]])
+                else:
+                    els.append(rng.choice(enames))
+            # the same element name twice in a sequence is legal only with the same type: keep the first
+            seen_e, uniq_e = set(), []
+            for e in els:
+                nm_e = e if isinstance(e, str) else e[0]
+                if nm_e not in seen_e:
+                    seen_e.add(nm_e)
+                    uniq_e.append(e)
+            t = {"name": nm, "elements": uniq_e, "attributes": [rng.choice(enames)] if rng.random() < 0.3 else [],
+                 "abstract": rng.random() < 0.1, "model": "choice" if rng.random() < 0.35 else "sequence"}
+            if k > 0 and rng.random() < 0.3:
+                t["base"] = names[rng.randrange(0, k)]
+            types.append(t)
+        opts = {"style": rng.choice(STYLES), "compound": rng.random() < 0.5, "unnest": rng.random() < 0.4,
+                "wrapper": rng.random() < 0.15}
+        for k2, pr in (("frozen", 0.2), ("slots", 0.2), ("relative_imports", 0.3), ("generic_collections", 0.2)):
+            if rng.random() < pr:
+                opts[k2] = True
+        yield xsd(types, [{"name": rng.choice(enames), "type": rng.choice(names)}], [], rng.choice([None, None, "urn:x"]), **opts)
+    for _ in range(40 if tier == "quick" else 400):
         pool = rng.sample(XML_NAMES, 8)
         pool = [x for x in pool if x != "\u2fe0"] or ["a"]
         bnames = list(dict.fromkeys(rng.choice(pool) for _ in range(rng.randint(1, 3))))
@@ -1347,7 +2005,7 @@ def gen_pipeline(rng, tier):
         opts = {"style": rng.choice(STYLES), "relative_imports": rng.random() < 0.6, "unnest": rng.random() < 0.3,
                 "slots": rng.random() < 0.3, "generic_collections": rng.random() < 0.3}
         yield {"kind": "xsd2", "spec": spec, "opts": opts}
-    n = 300 if tier == "quick" else 4000
+    n = 200 if tier == "quick" else 2500
     tnss = [None, None, "urn:x", "http://www.example.com/class/1", "http://1.2/3", "urn:await"]
     for _ in range(n):
         opts = {
@@ -1419,7 +2077,7 @@ _E2E_CACHE = {}
 def _e2e_msg(a):
     k = json.dumps(a, sort_keys=True, ensure_ascii=False)
     if k not in _E2E_CACHE:
-        if len(_E2E_CACHE) > 5000:
+        if len(_E2E_CACHE) > 20000:
             _E2E_CACHE.clear()
         _E2E_CACHE[k] = oracle_pipeline(a)
     return _E2E_CACHE[k]
@@ -1446,12 +2104,6 @@ def gen_e2e(rng, tier):
     yield from gen_pipeline(rng, tier)
 
 
-def classify_e2e(a, o):
-    if "err" in o:
-        return a["kind"] + ":" + (covered_pipeline(a, o["err"]) or "FAIL")
-    return a["kind"] + ":importable"
-
-
 def adapt_ident(op, a):
     if op == "names.filter":
         return a
@@ -1465,6 +2117,9 @@ ORACLES = [
     Oracle("c07.fields", gen_oracle_fields, oracle_fields, covered_fields, from_ops=("names.rename_attrs", "names.e2e_fields")),
     Oracle("c07.classes", gen_oracle_classes, oracle_classes, covered_classes, from_ops=("names.rename_classes",)),
     Oracle("c07.fresh", gen_oracle_fresh, oracle_fresh, from_ops=("names.unique_name", "names.next_qname", "names.next_available_name"), adapt=adapt_fresh),
+    Oracle("c07.inners", gen_rename_inners, oracle_inners, covered_inners, from_ops=("names.rename_inners",)),
+    Oracle("c07.conflict", gen_resolve_conflict, oracle_conflict, covered_conflict, from_ops=("names.resolve_conflict",)),
+    Oracle("c07.circular", gen_detect_circular, oracle_circular, from_ops=("names.detect_circular",)),
     Oracle("c07.pipeline", gen_pipeline, oracle_pipeline, covered_pipeline, from_ops=("c07.e2e", "names.e2e_fields"),
            adapt=lambda op, a: a if op == "c07.e2e" else adapt_pipeline(op, a)),
 ]
@@ -1500,18 +2155,22 @@ RULE = (
 )
 
 LEVEL_TEXT = (
-    "Lean theorems over all names (all of Unicode, every UEnv/Env) for the naming and renaming decision cores: for every "
-    "convention Filters accepts (first alphanumeric of the safe prefix is a letter; anything else is rejected with a CodegenError) "
-    "and all eight naming cases, safe_name terminates within 11 calls (3 for the defaults), never returns a reserved word nor a "
-    "Python keyword (every hard keyword of the running interpreter is a stop word: table theorem re-checked each run) and always "
-    "yields an identifier; the slug is invariant under case conversion; unique_name/next_qname/next_available_name always terminate "
-    "with a fresh slug; rename_duplicate_attributes leaves pairwise different slugs for EVERY attr list (full strength); "
-    "add_abstract_suffix records only fresh keys; counterexample theorems remain for safe-prefix collisions. The model is tied to "
-    "/repo by a differential check (18 ops), and the property itself is evaluated end to end on the REAL generator "
-    "(transformer.process, all handlers, CodeWriter, validate_imports; stand-in only for the Jinja2 templates): every written file "
-    "compiles, has no duplicate members/classes, the package imports, every class yields binding metadata "
-    "(XmlContext.build_recursive) and an instance, for hostile XSD (one and two namespaces) / JSON / XML sources under structure "
-    "styles x compound/wrapper/unnest x frozen/slots x relative imports x generic collections x naming cases."
+    "Lean theorems over all inputs for the naming, renaming and layout decision cores. Naming (Props/C07.lean): for every convention "
+    "Filters accepts and all eight naming cases safe_name terminates (<= 11 calls), never returns a reserved word or Python keyword, "
+    "always yields an identifier; slug invariance; unique_name/next_qname/next_available_name terminate with a fresh slug; "
+    "rename_duplicate_attributes and RenameDuplicateClasses leave pairwise different slugs / keys for EVERY input (full strength); "
+    "counterexamples remain for safe-prefix collisions. Layout (Props/C07Layout.lean): toposort_flatten emits every item after its "
+    "dependencies and fails exactly on cyclic dependencies; after a successful DependenciesResolver run every dependency of every class "
+    "is defined earlier in the module or imported from the module the registry names (import sufficiency), and the resolver fails only "
+    "for duplicate qnames, cycles or unprovided dependencies; DetectCircularReferences.is_circular decides reachability and always "
+    "answers, after the handler no plain reference lies on a cycle (any processing order), flags are only set on real cycles, the "
+    "remaining plain references are acyclic; inner classes of one class get different slugs; the class created for an ambiguous choice "
+    "lives in its source's namespace; final qnames are unique. The model is tied to /repo by a differential check (22 ops) and the "
+    "property itself is evaluated end to end on the REAL generator (transformer.process, all handlers, CodeWriter, validate_imports; "
+    "stand-in only for the Jinja2 templates): files compile, no duplicate members / inner / module classes, the package imports (an "
+    "ImportError or a consistency error hidden behind CodegenError counts as failure for valid sources), every class binds and "
+    "instantiates, for hostile XSD (one/two namespaces, cyclic and inheriting complex types, anonymous inner types, repeating choices) / "
+    "JSON / XML sources under structure styles x compound/wrapper/unnest x frozen/slots x relative imports x generic collections x cases."
 )
 LEVEL_NOTE = (
     "Partial: only the naming/renaming cores are modelled in Lean; package designation, import resolution, circular-reference "
